@@ -29,6 +29,9 @@ CHECKS["C09"] = dict(design="4/C09", technique="GqlSched with op=mutation: invar
 CHECKS["C16"] = dict(design="4/C16", technique="trace validation: recorded instrumentation / middleware / resolver events judged by the TLA+ hook machine (GqlHooks) in TLC, over TLC-generated executions and every request outcome; canaries",
     text="One recorder object implements Instrumentation, middleware and resolver wrapper; the event logs of TLC-generated executions (every completion order of bounded plans, queries and mutations, four executor/runtime configurations, 1-3 stacked instrumentations, 0-2 middlewares), of every non-execution outcome and of request sequences sharing one schema and runtime instance are judged by spec/GqlHooks.tla: stage hooks obey a stack discipline with starts in index order and ends in reverse, every resolved field sees fs -> middlewares (last listed outermost) -> resolver -> fe exactly once inside the execution stage, and every started stage ends. Canary traces must be rejected.",
     note="Events are ordered by a sequence lock in the recorder; after an unexpected resolver exception only the prefix discipline is required.")
+CHECKS["C17"] = dict(design="4/C17", technique="TLA+ pull-driven stream machine (GqlSubscribe) model-checked (safety + liveness); behaviours replayed action by action on subscribe() with a gated source and gated field resolvers on a private event loop",
+    text="spec/GqlSubscribe.tla models Subscribe / Produce / Pull / Deliver / FieldDone / Yield / End with the four refusal set-ups; TLC checks OnePerEvent, NoConsumeBeforeRefusal, InOrder, EndOnlyAtSourceEnd and termination, and enumerates event sequences (per-event outcomes: value, null, resolver error, null in non-null, unexpected exception, alternating concrete types with type-specific argument defaults), the relative timing of source and consumer and the completion order of deferred field resolvers. Each behaviour is replayed on the real subscribe(): source __anext__ calls, pending field gates and readiness of each pulled result are compared after every action and every yielded result must equal the reference computed from that event alone; refusals must raise the documented exception with zero source calls.",
+    note="Single consumer; events<=1 exhaustive, 2-3 events by TLC simulation; silent steps fused by the implementation are looked ahead.")
 NOT_YET = {
 }
 
